@@ -490,6 +490,8 @@ def _leaves(node, seen):
             yield from _leaves(b, seen)
     elif d.kind in ("int", "long", "string"):
         yield (d.kind, d.logical if d.logical and L.known(d) else None)
+    elif d.kind == "enum":
+        yield ("string", None)  # a generated symbol is a plain str: it fits a uuid-annotated string leaf
 
 
 def misrouting_explained(node, seen=frozenset()):
